@@ -14,6 +14,8 @@
 //     is a scheduler gate (Client.Intercept blocks until the schedule names
 //     that actor), so the interleavings TLC enumerates are replayed
 //     deterministically;
+//   - a composed Usage is re-applied by the real composite.PTComposer.Compose (which passes the Usage controller's
+//     RespectOwnerRefs to its applicator);
 //   - after every call / environment step one trace event is written carrying
 //     the projected state and, for every used resource, the admission decision
 //     a DELETE in each served version with each propagation policy would get in
@@ -59,10 +61,11 @@ import (
 
 	xpcontroller "github.com/crossplane/crossplane-runtime/pkg/controller"
 	"github.com/crossplane/crossplane-runtime/pkg/logging"
-	"github.com/crossplane/crossplane-runtime/pkg/resource"
-	"github.com/crossplane/crossplane-runtime/pkg/resource/unstructured/composed"
+	ucomposite "github.com/crossplane/crossplane-runtime/pkg/resource/unstructured/composite"
 
+	apiextv1 "github.com/crossplane/crossplane/apis/apiextensions/v1"
 	"github.com/crossplane/crossplane/apis/apiextensions/v1beta1"
+	"github.com/crossplane/crossplane/internal/controller/apiextensions/composite"
 	usagectl "github.com/crossplane/crossplane/internal/controller/apiextensions/usage"
 	usagehook "github.com/crossplane/crossplane/internal/usage"
 	"github.com/crossplane/crossplane/zzverif/fakes"
@@ -103,7 +106,7 @@ func (s *whServer) Register(path string, hook http.Handler) {
 	}
 	s.hooks[path] = hook
 }
-func (s *whServer) Start(context.Context) error      { return nil }
+func (s *whServer) Start(context.Context) error     { return nil }
 func (s *whServer) StartedChecker() healthz.Checker { return func(*http.Request) error { return nil } }
 func (s *whServer) WebhookMux() *http.ServeMux      { return http.NewServeMux() }
 
@@ -211,13 +214,13 @@ type world struct {
 	actors  map[string]*actor // by Usage name
 	byActor map[string]*actor // by simapi actor name
 
-	hook   *hookClient
-	whs    *whServer
-	whcfg  *admregv1.ValidatingWebhookConfiguration
-	idx    *recIndexer
-	user   *simapi.Client
-	xrc    *simapi.Client
-	reqVer string
+	hook    *hookClient
+	whs     *whServer
+	whcfg   *admregv1.ValidatingWebhookConfiguration
+	idx     *recIndexer
+	user    *simapi.Client
+	xrc     *simapi.Client
+	reqVer  string
 	lastVia string
 
 	allProbes bool // probe every propagation policy in every state (else one per version, rotating)
@@ -236,13 +239,15 @@ type world struct {
 	sum     *summary
 }
 
-func usedKey(name string) simapi.Key  { return simapi.Key{Group: grp, Kind: usedKind, Name: name} }
-func usageKey(name string) simapi.Key { return simapi.Key{Group: v1beta1.Group, Kind: v1beta1.UsageKind, Name: name} }
+func usedKey(name string) simapi.Key { return simapi.Key{Group: grp, Kind: usedKind, Name: name} }
+func usageKey(name string) simapi.Key {
+	return simapi.Key{Group: v1beta1.Group, Kind: v1beta1.UsageKind, Name: name}
+}
 
 var (
-	bKey     = simapi.Key{Group: grp, Kind: usingKind, Name: bName}
-	xrKey    = simapi.Key{Group: grp, Kind: xrKind, Name: xrName}
-	ctx      = context.Background()
+	bKey  = simapi.Key{Group: grp, Kind: usingKind, Name: bName}
+	xrKey = simapi.Key{Group: grp, Kind: xrKind, Name: xrName}
+	ctx   = context.Background()
 )
 
 func (w *world) decoyKey() simapi.Key {
@@ -306,12 +311,17 @@ func newWorld(tw *trace.Writer, id string, init map[string]any, whcfg *admregv1.
 	usel, uctl := strList(init["usel"]), strList(init["uctl"])
 
 	// the objects the Usages talk about
-	xr := s.Put(obj(grp+"/v1", xrKind, xrName))
+	xro := obj(grp+"/v1", xrKind, xrName)
+	xro.SetLabels(map[string]string{composedLabel: xrName})
+	xr := s.Put(xro)
 	w.xrUID = xr.GetUID()
 	ctrl := []metav1.OwnerReference{{APIVersion: grp + "/v1", Kind: xrKind, Name: xrName, UID: w.xrUID, Controller: ptr.To(true), BlockOwnerDeletion: ptr.To(true)}}
 	b := obj(grp+"/v1", usingKind, bName)
 	b.SetLabels(map[string]string{selKey: selVal})
 	b.SetOwnerReferences(ctrl)
+	if bfin, _ := init["bfin"].(bool); bfin {
+		b.SetFinalizers([]string{"example.org/hold"}) // its deletion takes two steps: deletionTimestamp, then gone
+	}
 	w.bUID = s.Put(b).GetUID()
 	for _, name := range w.useds {
 		u := obj(grp+"/v1", usedKind, name)
@@ -516,7 +526,7 @@ func (w *world) projectUsed(id string, k simapi.Key) map[string]any {
 		c.SetAPIVersion(k.Group + "/" + v)
 		keys = append(keys, map[string]any{"v": v, "key": usagehook.IndexValueForObject(c)})
 		pols := allPolicies
-		if !w.allProbes {
+		if !w.allProbes || id == decoyID {
 			// one propagation policy per version and state, rotating over the states of the run
 			pols = []string{allPolicies[(w.rot+vi)%len(allPolicies)]}
 		}
@@ -614,15 +624,95 @@ func (w *world) post() map[string]any {
 	for _, name := range w.usages {
 		us = append(us, w.projectUsage(name))
 	}
-	w.lastPost = map[string]any{"used": used, "us": us, "bex": w.s.Peek(bKey) != nil}
+	b := w.s.Peek(bKey)
+	w.lastPost = map[string]any{"used": used, "us": us, "bex": b != nil, "bdel": b != nil && b.GetDeletionTimestamp() != nil}
 	return w.lastPost
+}
+
+// hits counts, for the evidence file only, how often the antecedents of the monitor's formulas were exercised.
+func (w *world) hits(prev, cur map[string]any, ev string, m map[string]any) {
+	h := w.sum.Hits
+	live := map[string]bool{}
+	for _, x := range cur["us"].([]any) {
+		s := x.(map[string]any)
+		if s["ex"].(bool) && s["ready"].(bool) && !s["del"].(bool) {
+			live[s["of"].(string)] = true
+			if s["by"].(string) != "none" {
+				h["Owned: ready Usage by a resource"]++
+			}
+		}
+	}
+	for _, x := range cur["used"].([]any) {
+		u := x.(map[string]any)
+		if u["ex"].(bool) && live[u["id"].(string)] {
+			h["Protected: state with a live Usage of an existing used resource"]++
+		}
+	}
+	if ev == "delreq" {
+		h["delreq "+m["outcome"].(string)+" via "+m["req"].(map[string]any)["via"].(string)]++
+	}
+	if prev == nil || ev == "reset" {
+		return
+	}
+	pu := map[string]map[string]any{}
+	for _, x := range prev["us"].([]any) {
+		s := x.(map[string]any)
+		pu[s["id"].(string)] = s
+	}
+	for _, x := range cur["us"].([]any) {
+		s := x.(map[string]any)
+		p := pu[s["id"].(string)]
+		if s["ex"].(bool) && s["ready"].(bool) && !(p["ex"].(bool) && p["ready"].(bool)) {
+			h["LabelFirst: Usage became ready"]++
+		}
+		if p["ex"].(bool) && p["fin"].(bool) && p["comp"].(bool) && p["by"].(string) != "none" && !(s["ex"].(bool) && s["fin"].(bool)) {
+			st := "gone"
+			if prev["bex"].(bool) {
+				st = "live"
+				if prev["bdel"].(bool) {
+					st = "deleting"
+				}
+			}
+			h["UsageAfterUser: composed Usage lost its finalizer, using resource "+st]++
+		}
+	}
+	if ev == "end" && m["branch"] == "delete" {
+		if s := pu[m["actor"].(string)]; s != nil && s["ex"].(bool) && s["comp"].(bool) && s["by"].(string) != "none" {
+			st := "gone"
+			if prev["bex"].(bool) {
+				st = "live"
+				if prev["bdel"].(bool) {
+					st = "deleting"
+				}
+			}
+			inj, _ := m["injected"].(string)
+			if inj != "" {
+				inj = " (fault " + inj + ")"
+			}
+			h["UsageAfterUser: deletion reconcile of a composed Usage ended, using resource "+st+inj]++
+		}
+	}
+	pl := map[string]bool{}
+	for _, x := range prev["used"].([]any) {
+		u := x.(map[string]any)
+		pl[u["id"].(string)] = u["ex"].(bool) && u["label"].(bool)
+	}
+	for _, x := range cur["used"].([]any) {
+		u := x.(map[string]any)
+		if pl[u["id"].(string)] && u["ex"].(bool) && !u["label"].(bool) {
+			h["LabelLast: marker removed"]++
+		}
+	}
 }
 
 func (w *world) emit(ev string, m map[string]any) {
 	w.n++
+	prev := w.lastPost
+	cur := w.post()
+	w.hits(prev, cur, ev, m)
 	base := map[string]any{"ev": ev, "scenario": w.scenID, "n": w.n, "actor": "env", "rec": 0, "idx": 0, "verb": "", "kind": "", "name": "none",
 		"abs": "", "outcome": "", "injected": "", "applied": false, "noop": false, "branch": "none", "listed": []any{}, "result": "",
-		"req": map[string]any{"u": "none", "v": "", "p": "", "o": "", "via": ""}, "post": w.post()}
+		"req": map[string]any{"u": "none", "v": "", "p": "", "o": "", "via": ""}, "post": cur}
 	for k, v := range m {
 		base[k] = v
 	}
@@ -784,7 +874,9 @@ func (w *world) usageFor(name string, cfg map[string]any) *v1beta1.Usage {
 		u.Spec.By = &r
 	}
 	if comp {
+		// what the P&T composer put on it when it created it (it generates names; here the Usage keeps its scenario name)
 		u.SetLabels(map[string]string{composedLabel: xrName})
+		u.SetAnnotations(map[string]string{"crossplane.io/composition-resource-name": "usage-" + name})
 		u.SetOwnerReferences([]metav1.OwnerReference{{APIVersion: grp + "/v1", Kind: xrKind, Name: xrName, UID: w.xrUID, Controller: ptr.To(true), BlockOwnerDeletion: ptr.To(true)}})
 	}
 	return u
@@ -800,24 +892,16 @@ func (w *world) env(e replay.Entry) {
 		w.s.MarkDeleted(usageKey(e.O))
 	case "delB":
 		w.s.MarkDeleted(bKey)
+	case "finB":
+		w.s.Mutate(bKey, func(u *unstructured.Unstructured) {
+			if u.GetDeletionTimestamp() != nil {
+				u.SetFinalizers(nil)
+			}
+		})
 	case "gc":
 		w.s.GCStep()
 	case "recompose":
-		// what the P&T composer does with a composed resource it rendered (composition_pt.go): a patching apply
-		// with MustBeControllableBy and the Usage controller's RespectOwnerRefs
-		tu := w.usageFor(e.O, w.cfgs[e.O])
-		m, err := runtime.DefaultUnstructuredConverter.ToUnstructured(tu)
-		if err != nil {
-			panic(err)
-		}
-		delete(m, "status")
-		if md, ok := m["metadata"].(map[string]any); ok {
-			delete(md, "creationTimestamp")
-		}
-		cd := composed.New()
-		cd.Object = m
-		cd.SetGroupVersionKind(v1beta1.UsageGroupVersionKind)
-		err = resource.NewAPIPatchingApplicator(w.xrc).Apply(ctx, cd, resource.MustBeControllableBy(w.xrUID), usagectl.RespectOwnerRefs())
+		err := w.compose(e.O)
 		res := "ok"
 		if err != nil {
 			res = "error"
@@ -833,6 +917,31 @@ func (w *world) env(e replay.Entry) {
 		panic("unknown env step " + e.K)
 	}
 	w.emit("env", map[string]any{"verb": e.K, "name": e.O, "abs": "env:" + e.K})
+}
+
+// compose runs the real P&T composer (composite.PTComposer.Compose) for the XR with a CompositionRevision whose only
+// resource template is the Usage the XR already references: the composer renders the template and re-applies it with the
+// apply options composition_pt.go passes, among them the Usage controller's RespectOwnerRefs.
+func (w *world) compose(name string) error {
+	tu := w.usageFor(name, w.cfgs[name])
+	spec, err := json.Marshal(tu.Spec)
+	if err != nil {
+		return err
+	}
+	base := fmt.Sprintf(`{"apiVersion":%q,"kind":%q,"metadata":{"name":%q},"spec":%s}`, v1beta1.SchemeGroupVersion.String(), v1beta1.UsageKind, name, spec)
+	rev := &apiextv1.CompositionRevision{}
+	rev.Spec.Resources = []apiextv1.ComposedTemplate{{Name: ptr.To("usage-" + name), Base: runtime.RawExtension{Raw: []byte(base)}}}
+	xr := ucomposite.New(ucomposite.WithGroupVersionKind(schema.GroupVersionKind{Group: grp, Version: "v1", Kind: xrKind}))
+	if err := w.xrc.Get(ctx, types.NamespacedName{Name: xrName}, xr); err != nil {
+		return err
+	}
+	xr.SetResourceReferences([]corev1.ObjectReference{{APIVersion: v1beta1.SchemeGroupVersion.String(), Kind: v1beta1.UsageKind, Name: name}})
+	res, err := composite.NewPTComposer(w.xrc, w.xrc).Compose(ctx, xr, composite.CompositionRequest{Revision: rev})
+	if err == nil && len(res.Events) > 0 {
+		// rendering problems are reported as events, not as an error
+		err = fmt.Errorf("%s", res.Events[0].Event.Message)
+	}
+	return err
 }
 
 // deleteRequest is a user's DELETE of a used resource through the API server.
@@ -1019,6 +1128,7 @@ type summary struct {
 	Counts     map[string]int `json:"counts"`
 	Samples    []any          `json:"samples"`
 	DriftByAbs map[string]int `json:"drift_by_abs"`
+	Hits       map[string]int `json:"hits"`
 }
 
 // run replays one history; returns the number of calls of every reconcile, keyed "actor/rec".
@@ -1087,7 +1197,7 @@ func main() {
 	if err != nil {
 		fail(err)
 	}
-	sum := &summary{DriftByAbs: map[string]int{}}
+	sum := &summary{DriftByAbs: map[string]int{}, Hits: map[string]int{}}
 	fails := []simapi.Decision{simapi.FailError, simapi.FailConflict, simapi.CrashBefore}
 	dec := map[string]simapi.Decision{"error": simapi.FailError, "conflict": simapi.FailConflict, "crashBefore": simapi.CrashBefore, "crashAfter": simapi.CrashAfter}
 	for i, raw := range raws {
